@@ -166,16 +166,16 @@ def fam_json(rng, g):
     return {
         "convs": [conv([[C(data), U(q)], [U("nextA %s" % g)]]), conv([[U(json.dumps(data)), U(q)], [U("nextB %s" % g)]])],
         "answers": {q: "r%s" % g},
-        "modes": ("general", "passthrough", "dialog"),
+        "modes": ("general", "dialog", "single_call"),  # passthrough forwards the raw messages: a context message is an error there
     }
 
 
 def fam_empty(rng, g):
-    """empty strings as pieces: A = [a -> r, "" -> s], B = [a -> r, ...] / joins with '::'"""
+    """empty strings as pieces: A = [a -> r, "" -> s, ..], B = ["a:r:" -> s, ..]: both histories join to "a:r::s" """
     a, r, s = "a%s" % g, "r%s" % g, "s%s" % g
     return {
-        "convs": [conv([[U(a)], [U("")], [U("nextA %s" % g)]]), conv([[U(a), U("")], [U("nextB %s" % g)]])],
-        "answers": {a: r, "": s},
+        "convs": [conv([[U(a)], [U("")], [U("nextA %s" % g)]]), conv([[U("%s:%s:" % (a, r))], [U("nextB %s" % g)]])],
+        "answers": {a: r, "": s, "%s:%s:" % (a, r): s},
     }
 
 
@@ -259,6 +259,9 @@ def seq_cases(tier, seed):
                 modes = d.pop("modes", MODES)
                 mode = modes[(gi + rnd + seed) % len(modes)] if rng.random() < 0.7 else rng.choice(modes)
                 k, m = _rails(rng)
+                if mode == "passthrough":
+                    for c in d["convs"]:
+                        c["turns"] = [[x for x in t if x["role"] != "context"] for t in c["turns"]]
                 counts = [len(c["turns"]) for c in d["convs"]]
                 total = n_interleavings(counts)
                 if total <= max_per_set:
